@@ -348,18 +348,42 @@ struct QsbrEngine final : Engine {
     // thread that is alone for a while because the others start out paused. Random tails follow.
     Rng tr = stream(seed, S_WORKLOAD + 48);
     const bool roles = tr.chance(0.3);
+    // rounds template (a further 12 %): every thread retires something, all go through the same number of quiescent states
+    // (so that the epoch really advances that many times when the threads run in step), then all but the first leave. Run
+    // mostly under the lockstep strategy: requests age into the previous interval on several threads at once, and the leavers
+    // hand them over around one and the same epoch change.
+    const bool rounds = !roles && tr.chance(0.17);
+    const int64_t round_q = tr.range(1, 3);
+    c.set_knob("lockstep_pct", rounds ? 60 : (roles ? 12 : 5));
     for (int t = 0; t < ninit + nchildren; t++) {
       std::vector<Op> ops;
+      if (rounds) {
+        auto mk = [&](int k, int64_t a = 0, int64_t b = 0, int64_t c = 0) { Op o; o.kind = k; o.a = a; o.b = b; o.c = c; return o; };
+        const int64_t slot = static_cast<int64_t>(tr.below(static_cast<uint64_t>(nslots)));
+        const auto x = tr.below(100);
+        ops.push_back(x < 75 ? mk(Q_RETIRE, slot) : (x < 90 ? mk(Q_TAKE, slot) : mk(Q_QUIESCENT)));
+        for (int64_t k = tr.chance(0.75) ? round_q : tr.range(1, 3); k > 0; k--) ops.push_back(mk(Q_QUIESCENT));
+        if (t == 0) { for (int64_t k = tr.range(1, 2); k > 0; k--) ops.push_back(mk(Q_QUIESCENT)); }
+        else if (tr.chance(0.6)) ops.push_back(mk(Q_PAUSE_RESUME, 0, tr.range(0, 4), 1));
+      }
       if (roles) {
         auto mk = [&](int k, int64_t a = 0, int64_t b = 0, int64_t c = 0) { Op o; o.kind = k; o.a = a; o.b = b; o.c = c; return o; };
         const int64_t slot = static_cast<int64_t>(tr.below(static_cast<uint64_t>(nslots)));
-        const auto role = t == 0 ? 0 : tr.below(3);  // thread 1: the one that stays registered
+        const auto role = t == 0 ? 0 : tr.below(4);  // thread 1: the one that stays registered
         if (role != 0 && tr.chance(0.6)) ops.push_back(mk(Q_PAUSE_RESUME, 0, tr.range(4, 12), 1));  // start out paused, yielding
         if (role == 0) { for (int k = static_cast<int>(tr.range(1, 3)); k > 0; k--) ops.push_back(mk(Q_QUIESCENT)); }
         else if (role == 1) { if (tr.chance(0.7)) ops.push_back(mk(Q_QUIESCENT)); ops.push_back(mk(Q_TAKE, slot)); ops.push_back(mk(Q_TOUCH)); if (tr.chance(0.5)) ops.push_back(mk(Q_TOUCH)); }
-        else { if (tr.chance(0.4)) ops.push_back(mk(Q_QUIESCENT)); ops.push_back(mk(Q_RETIRE, slot)); if (tr.chance(0.6)) ops.push_back(mk(Q_PAUSE_RESUME, 0, tr.range(0, 6), 1)); }
+        else if (role == 2) { if (tr.chance(0.4)) ops.push_back(mk(Q_QUIESCENT)); ops.push_back(mk(Q_RETIRE, slot)); if (tr.chance(0.6)) ops.push_back(mk(Q_PAUSE_RESUME, 0, tr.range(0, 6), 1)); }
+        else {
+          // late leaver: retires, lives through an epoch change or two (its requests age into the previous interval), then
+          // leaves - several of these leaving around the same epoch change put several nodes on the orphan lists at once
+          ops.push_back(mk(Q_RETIRE, slot));
+          if (tr.chance(0.5)) { ops.push_back(mk(Q_PUBLISH, slot)); ops.push_back(mk(Q_RETIRE, slot)); }
+          for (int k = static_cast<int>(tr.range(1, 2)); k > 0; k--) ops.push_back(mk(Q_QUIESCENT));
+          if (tr.chance(0.5)) ops.push_back(mk(Q_PAUSE_RESUME, 0, tr.range(0, 4), 1));
+        }
       }
-      const int n = roles ? static_cast<int>(r.range(0, 4)) : static_cast<int>(r.range(3, maxsteps));
+      const int n = rounds ? static_cast<int>(r.range(0, 1)) : roles ? static_cast<int>(r.range(0, 4)) : static_cast<int>(r.range(3, maxsteps));
       bool spawned = false;
       for (int i = 0; i < n; i++) {
         Op o;
